@@ -155,10 +155,10 @@ TEXT = {
               "enough to divide it); a history variable enforces inverse(-x, mirror(m)) = -inverse(x, m); a watchdog timeout is an "
               "unexplained event (termination). Driver: all 2^i 5^j (i <= 24/60, j <= 12/30) at p = exact length + {-1,0,1,2,3,6} "
               "under every mode, 99..9 / 100..01 / powers of ten at p in {1..5, 100}, random x to 400/1500 digits with p in 1..150, "
-              "scales to +-2000, bit lengths around the f64 underflow of the initial guess, `1 / x` with primitive ones. The "
-              "open known finding KF-C12-small-precision (p <= 3, less than two units off) is reported as KNOWN-FINDING.",
+              "scales to +-2000, bit lengths around the f64 underflow of the initial guess, `1 / x` with primitive ones. (The early-stop "
+              "defect at p <= 3 this check found is repaired in /repo; its former deviation no longer exists.)",
         note=COMMON_NOTE,
-        technique="relational, stateful TLA+ trace validation with TLC; named deviation for the recorded known finding",
+        technique="TLC model checking of the relation (MC_Roots) + relational, stateful TLA+ trace validation",
         ref="DESIGN.md section 7 C12"),
     "C13": dict(
         level="MC_Exp checks the enclosure itself (L <= U, width, nesting, 50 known digits of e, acceptance / rejection). The specification computes, in TLA+ fixed-point decimal arithmetic with directed rounding, a rigorous enclosure [L, U] "
